@@ -67,6 +67,16 @@ class MatEngine:
         if k == 'call':
             p = t[1]
             s = short(p)
+            # a matrix value that is written into after it was computed is no longer what its defining call denotes
+            mods = [st for st in f.stores() if tag(st.target) == 'index' and st.target[1] == t] if p in self.prog.pdb.bodies else []
+            if mods:
+                perturb = all(tag(st.value) == 'bin' and st.value[1] in ('Add', 'Sub') and st.target in (st.value[2], st.value[3]) and
+                              tag(st.value[3] if st.value[2] == st.target else st.value[2]) == 'const' for st in mods)
+                if perturb:
+                    c_ = mods[0].value[3] if mods[0].value[2] == mods[0].target else mods[0].value[2]
+                    raise MatProblem('entries %s of %s are shifted by the constant %s after it is computed: the operand is no longer that matrix '
+                                     '(a regularised system has a different solution)' % (show(mods[0].target[2])[:30], show_mat(self._plain(f, t, ix, leafnames, depth)), show(c_)), definite=True)
+                raise MatProblem('%s is modified element-wise after it is computed' % show(t)[:50])
             if s in ('to_vec', 'to_owned', 'clone') and t[2]:
                 return self.mat(f, t[2][0], ix, leafnames, depth)
             if p.endswith('utils::transpose'):
@@ -108,6 +118,17 @@ class MatEngine:
             if len(vals) == 1:
                 return self.mat(f, vals[0], ix, leafnames, depth)
         raise MatProblem('no matrix transfer function for %s' % show(t)[:80])
+
+    def _plain(self, f, t, ix, leafnames, depth):
+        """MatVal expression of t ignoring in-place writes (for messages)"""
+        saved = f.stores
+        try:
+            f.stores = lambda: [st for st in saved() if not (tag(st.target) == 'index' and st.target[1] == t)]
+            return self.mat(f, t, ix, leafnames, depth)[0]
+        except MatProblem:
+            return ('M', '?')
+        finally:
+            f.stores = saved
 
     def _inline(self, call):
         """the single return value of an in-crate helper with its parameters replaced by the caller's argument terms; None when the
